@@ -426,6 +426,28 @@ func (g *Gen) genC20(n int) error {
 		g.emit("ref mapped %s", o)
 		g.st("seq")
 	}
+	// concurrent holders interleaved with readers
+	for c := 0; c < g.tierN(3, 20); c++ {
+		g.emit("note case conc%d", c)
+		o := g.fresh("o")
+		g.emit("open %s %s", o, f)
+		g.alias(o, s)
+		u := g.univ[o]
+		fn := sortedFieldNames(u.Fields)[0]
+		g.emit("par %d rounds=%d ordered=1", 4+g.r.Intn(8), 1+g.r.Intn(4))
+		g.emit("ref addref %s", o)
+		g.emit("q dict %s %s aut=all lo=* hi=* probe=-", o, fn)
+		g.emit("ref addref %s", o)
+		g.emit("q stored %s 0 stop=*", o)
+		g.emit("ref decref %s", o)
+		g.emit("q docid %s 1", o)
+		g.emit("ref decref %s", o)
+		g.emit("endpar")
+		g.emit("ref refs %s", o)
+		g.emit("ref mapped %s", o)
+		g.emit("ref close %s", o)
+		g.emit("ref mapped %s", o)
+	}
 	// in-memory segment: closing is harmless
 	g.emit("note case inmem")
 	g.emit("ref addref %s", s)
